@@ -31,7 +31,7 @@ inductive Ev where
   | fwd (id i : Nat)
   | removeFwd (id i : Nat)
   | deleteGracefully (id pos : Nat)
-  | removeUnused (id : Nat)
+  | removeUnused (id : Nat) (keep : Bool)
   | appendFrom (id oid : Nat) (other : List Stmt) (start : Nat) (draws : List Nat)
   | splice (id oid nid : Nat) (other : List Stmt) (p1 p2 : Nat) (draws : List Nat) (len : Nat)
   | expectChop (id : Nat) (chopMax : Bool) (len : Nat) (last : Option Nat)
@@ -124,9 +124,9 @@ def step (p : Pool) : Ev → Except String (Pool × Json)
     match tc.deleteGracefully pos with
     | some r => pure (p.set id r.1, Json.mkObj [("r", toJson r.2), ("l", lightJ r.1), ("full", fullJ r.1)])
     | none => pure (p, errJ "fuel")
-  | .removeUnused id => do
+  | .removeUnused id keep => do
     let tc ← p.get id
-    let tc' := tc.removeUnused
+    let tc' := tc.removeUnusedV keep
     pure (p.set id tc', Json.mkObj [("l", lightJ tc'), ("full", fullJ tc')])
   | .appendFrom id oid other start draws => do
     let tc ← p.get id
